@@ -23,6 +23,9 @@ def run_scheds(c, scheds, tag):
             mism.append(d)
     if not stats or stats["executed"] < len(scheds):
         raise Broken("lock harness executed too little: %s" % stats)
+    driver = [m for m in mism if m["why"].startswith("DRIVER:") or m["why"].startswith("harness worker crashed")]
+    if driver:
+        raise Broken("the lock driver failed (not a verdict about the code): %s" % driver[0]["why"][:500])
     return mism, stats
 
 
@@ -52,7 +55,36 @@ def close_window(c):
                  {"close_window": True})
 
 
+def lock_window(c):
+    """MC_LockOpen.tla: the lock appears with its content. Real holders are interrupted (hook on the local storage) at every
+    point of taking the lock: killed there, whatever they leave must not keep the next process out; stalled there, an existing
+    lock file - complete or not - is theirs and nobody takes it away."""
+    c.tlc_model("MC_LockOpen", "MC_LockOpen.cfg", timeout=300, label="taking the lock in steps, atomic publication; 2 holders, death at any point")
+    r = c.tlc("MC_LockOpen", "MC_LockOpen_inplace.cfg", timeout=300, label="witness: create-then-write must be reported by the model")
+    if r.violated != "UsableAfterDeath":
+        raise Broken("the model does not distinguish publishing the lock atomically from writing it in place (vacuity guard)")
+    out = os.path.join(c.scratch, "lock-window.ndjson")
+    c.vh(["lock-window", out, c.build_gitbug()], timeout=900)
+    recs = [json.loads(l) for l in open(out)]
+    c.cov["lock_window"] = [{k: r.get(k) for k in ("mode", "point", "child_exit", "next_open_ok", "stalled", "probe_admitted", "lock_file_exists_while_stalled")} for r in recs]
+    died = [r for r in recs if r["mode"] == "die" and r["child_exit"] == 77]
+    stalled = [r for r in recs if r["mode"] == "stall" and r["stalled"]]
+    if not died or not stalled:
+        raise Broken("no holder was interrupted while taking the lock: %s" % recs)
+    for r in died:
+        if not r["next_open_ok"]:
+            c.report("lock:window:dead-holder-blocks", "a holder killed while taking the lock (point %s; it left lock file=%s content=%r) keeps every later process out: %s" % (
+                r["point"], r["lock_file_exists"], r["lock_left"], r["next_open_out"][:300]), {"lock_window": True})
+    for r in stalled:
+        if r["lock_file_exists_while_stalled"] and (r["probe_admitted"] or r["lock_after_probe"] != r["lock_while_stalled"]):
+            c.report("lock:window:live-lock-taken", "a holder stalled while taking the lock (point %s) had created its lock file (content %r); a second process was %s and the lock file then held %r" % (
+                r["point"], r["lock_while_stalled"], "admitted" if r["probe_admitted"] else "refused", r["lock_after_probe"]), {"lock_window": True})
+        if not r["holder_saw_own_lock"]:
+            c.report("lock:window:holder-without-lock", "a holder that was slow taking the lock ended up open without owning the lock: %s" % r["holder_out"][:200], {"lock_window": True})
+
+
 def run(c):
+    lock_window(c)
     close_window(c)
     d = c.specdir()
     depth = 4 if c.tier == "quick" else 5
@@ -98,6 +130,8 @@ def replay(c, rep):
     c.sample(rep["replay"])
     if rep["replay"].get("close_window"):
         return close_window(c)
+    if rep["replay"].get("lock_window"):
+        return lock_window(c)
     mism, _ = run_scheds(c, [rep["replay"]["schedule"]], "replay")
     for m in mism:
         c.report(rep["key"], m["why"], rep["replay"])
